@@ -334,3 +334,61 @@ def _is_termidx(a, b):
             if fl and fl[-1] in ("ctpg::recognized_term::term_idx", PS + "current_term_idx"):
                 return True
     return False
+
+
+WIDTH = {"ctpg::size_t": 64, "size_t": 64, "std::size_t": 64, "unsigned long": 64, "long": 64, "unsigned long long": 64,
+         "ctpg::size32_t": 32, "size32_t": 32, "unsigned int": 32, "int": 32, "std::uint32_t": 32,
+         "ctpg::size16_t": 16, "size16_t": 16, "unsigned short": 16, "short": 16, "std::uint16_t": 16,
+         "ctpg::size8_t": 8, "size8_t": 8, "unsigned char": 8, "char": 8, "std::uint8_t": 8, "bool": 1}
+
+
+def _width(t):
+    t = t.replace("const ", "").strip()
+    return WIDTH.get(t)
+
+
+def lenw(chk, fx):
+    """The match length travels from the scan counter to the lexeme end without being narrowed: a token longer than
+    the narrower type would be cut (mod 2^k), and a token of exactly 2^k bytes would have length 0 (no progress)."""
+    chk.rule("LENW", "width of the match length on its way to the lexeme end", 3)
+    # (1) the field itself
+    recs = list(fx.records("ctpg::recognized_term"))
+    chk.require(recs, "record recognized_term not found")
+    u, r = recs[0]
+    for fl in r["fields"]:
+        if fl["n"] == "len":
+            w = _width(u.T(fl["t"]))
+            s = "include/ctpg/ctpg.hpp:%s ctpg::recognized_term::len" % fl["l"]
+            if w is None:
+                chk.incomplete("recognized_term::len has an unrecognised type %s" % u.T(fl["t"]))
+            if w >= 64:
+                chk.ok("LENW", s, "len is %s (as wide as the iterator difference)" % u.T(fl["t"]))
+            else:
+                chk.violation("LENW", s, "LENW:recognized_term::len", "len is %s: lengths >= 2^%d are truncated (a token of "
+                              "exactly 2^%d bytes gets length 0 and the parser makes no progress)" % (u.T(fl["t"]), w, w))
+    # (2) no narrowing conversion of a length value in the functions that carry it
+    carriers = ["ctpg::regex::dfa_match", "ctpg::recognized_term::recognized_term", "ctpg::regex::regex_lexer::match",
+                "ctpg::regex::regex_lexer::recognized", P + "get_current_term", "ctpg::regex::expr::match"]
+    seen = set()
+    for q in carriers:
+        for f in fx.fns(q)[:4]:
+            roots = [f.body] + [i.get("init") for i in f.o.get("inits", ())]
+            bad = False
+            for rt in roots:
+                for n in walk(rt):
+                    if n.get("k") == "ImplicitCastExpr" and n.get("ck") == "IntegralCast":
+                        src = (n.get("c") or [None])[0]
+                        if src is None:
+                            continue
+                        ws, wd = _width(f.facts.T(src.get("t"))), _width(f.facts.T(n.get("t")))
+                        if ws is None or wd is None or wd >= ws:
+                            continue
+                        names = A.path_names(A.access_path(src))
+                        if "len" in names.split(".")[-1] or names.endswith("len"):
+                            bad = True
+                            chk.violation("LENW", A.site(f, n), "LENW:%s:narrowing" % f.o["n"],
+                                          "the length '%s' (%s) is implicitly narrowed to %s" % (
+                                              names, f.facts.T(src.get("t")), f.facts.T(n.get("t"))))
+            if not bad and q not in seen:
+                seen.add(q)
+                chk.ok("LENW", A.site(f), "no narrowing conversion of a length in %s" % f.o["n"])
